@@ -102,6 +102,10 @@ def _rand_records0(arg):
             plain = {'k': 'command', 'arg': none if cmd['arg']['k'] == 'none' else dc.rand_type(rnd, rnd.choice((0, 1))),
                      'res': none if cmd['res']['k'] == 'none' else dc.rand_type(rnd, 0)}
             other = _vary(rnd, plain)
+            try:
+                dc.build_type(other)
+            except Exception:   # noqa: the variation produced an ill-formed type (min > max): not a case
+                other = plain
             recs.append(dc.compat_record(plain, other, {'via': 'random'}))
             recs.append(dc.compat_record(other, plain, {'via': 'random'}))
         # pairs: unrelated, and related by widening / narrowing one side
@@ -158,6 +162,9 @@ def _vary(rnd, a):
             vs = [m['v'] for m in a['mem']]
             return {'k': 'int', 'min': min(vs) + rnd.choice((0, 1)), 'max': max(vs)}
         return {'k': 'enum', 'mem': sorted(mem, key=lambda m: m['v'])}
+    if k == 'string' and a.get('text'):       # a TextType only has a maximum length
+        return dict(a, maxc=a['maxc'] if a['maxc'] == dc.NOLIM and rnd.random() < 0.5 else
+                    max(1, (a['maxc'] if a['maxc'] != dc.NOLIM else 20) + rnd.choice((-1, 0, 0, 1))))
     if k == 'string':
         lo = max(0, a['minc'] + rnd.choice((-1, 0, 0, 1)))
         hi = a['maxc'] if a['maxc'] == dc.NOLIM and rnd.random() < 0.7 else \
